@@ -14,39 +14,6 @@ def dictGet {κ α : Type} [DecidableEq κ] : List (κ × α) → κ → Option 
   | [], _ => none
   | (k', v') :: t, k => if k' = k then some v' else dictGet t k
 
-structure State where
-  fallback : Option Nat                      -- sink number of the fallback
-  prefixes : List (Str × (Nat × Bool))       -- `_route_code_prefixes`: prefix ↦ (sink, consume_route)
-  ids : List (Option Nat × Nat)              -- `_test_ids`: test id (or None) ↦ sink
-  sinks : List Nat                           -- `_sinks`: who gets startTestRun / stopTestRun, in order
-  inRun : Bool
-deriving DecidableEq, Repr
-
-/-- `StreamResultRouter(fallback, do_start_stop_run)`; the fallback, if any, is sink 0 -/
-def init (hasFallback flag : Bool) : State :=
-  { fallback := if hasFallback then some 0 else none, prefixes := [], ids := []
-    sinks := if flag && hasFallback then [0] else [], inRun := false }
-
-/-- `route_code.split("/")[0]` -/
-def firstSeg (rc : Str) : Str := rc.takeWhile (· != '/')
-
-/-- `route_code[len(prefix) + 1:]`, `None` when nothing remains -/
-def stripSeg (rc : Str) : Option Str :=
-  match rc.drop ((firstSeg rc).length + 1) with
-  | [] => none
-  | c :: cs => some (c :: cs)
-
-/-- `status(**kwargs)`: the sink the event goes to and the event as forwarded; `none` = no destination
-(`self.fallback` is `None`: the call raises) -/
-def route (s : State) (e : Event) : Option (Nat × Event) :=
-  match (match e.route with | some rc => dictGet s.prefixes (firstSeg rc) | none => none) with
-  | some (sink, consume) =>
-    some (sink, if consume then { e with route := match e.route with | some rc => stripSeg rc | none => none } else e)
-  | none =>
-    match dictGet s.ids e.testId with
-    | some sink => some (sink, e)
-    | none => s.fallback.map fun f => (f, e)
-
 inductive SinkEv where
   | start | stop
   | status (e : Event)
@@ -69,37 +36,182 @@ inductive Op where
       -- routers, the j-th with one consuming rule for the j-th outermost code, into a fresh sink
 deriving DecidableEq, Repr
 
-/-- `add_rule` after the policy method succeeded -/
-def registered (s : State) (sink : Nat) (flag : Bool) : State × List (Nat × SinkEv) :=
-  if flag then ({ s with sinks := s.sinks ++ [sink] }, if s.inRun then [(sink, .start)] else [])
-  else (s, [])
+/-! ### sinks with scripted behaviour
+A sink is a recording `StreamResult` that may, when the router calls one of its methods, call
+`router.add_rule(…)` re-entrantly (lazy route set-up) and/or raise.  Its script for a method is a list of
+entries, one per call of that method (first call: first entry, …; no entry left: plain behaviour).  A sink
+called from *inside* such a re-entrant `add_rule` (the immediate `startTestRun` of a rule added while a run is
+in progress) behaves plainly and consumes no entry. -/
+inductive Kind | start | stop | status
+deriving DecidableEq, Repr
+
+inductive Act where
+  | add (o : Op)          -- router.add_rule(…) from inside the sink's method (`o` is one of the three add operations)
+  | raise                 -- raise an exception out of the sink's method
+deriving DecidableEq, Repr
+
+structure Script where
+  sink : Nat
+  kind : Kind
+  entries : List (List Act)
+deriving DecidableEq, Repr
+
+/-- what is observed, in global order: calls received by sinks (`nested` = made from inside a re-entrant `add_rule`),
+re-entrant `add_rule` calls, exceptions raised inside a sink's method -/
+inductive Item where
+  | del (sink : Nat) (ev : SinkEv) (nested : Bool)
+  | radd (o : Op)
+  | exc (name : String)
+deriving DecidableEq, Repr
+
+structure State where
+  fallback : Option Nat                      -- sink number of the fallback
+  prefixes : List (Str × (Nat × Bool))       -- `_route_code_prefixes`: prefix ↦ (sink, consume_route)
+  ids : List (Option Nat × Nat)              -- `_test_ids`: test id (or None) ↦ sink
+  sinks : List Nat                           -- `_sinks`: who gets startTestRun / stopTestRun, in order
+  inRun : Bool
+  scripts : List Script                      -- what is left of the sinks' scripts
+deriving DecidableEq, Repr
+
+/-- `StreamResultRouter(fallback, do_start_stop_run)`; the fallback, if any, is sink 0 -/
+def init (hasFallback flag : Bool) : State :=
+  { fallback := if hasFallback then some 0 else none, prefixes := [], ids := []
+    sinks := if flag && hasFallback then [0] else [], inRun := false, scripts := [] }
+
+/-- `route_code.split("/")[0]` -/
+def firstSeg (rc : Str) : Str := rc.takeWhile (· != '/')
+
+/-- `route_code[len(prefix) + 1:]`, `None` when nothing remains -/
+def stripSeg (rc : Str) : Option Str :=
+  match rc.drop ((firstSeg rc).length + 1) with
+  | [] => none
+  | c :: cs => some (c :: cs)
+
+/-- `status(**kwargs)`: the sink the event goes to and the event as forwarded; `none` = no destination
+(`self.fallback` is `None`: the call raises) -/
+def route (s : State) (e : Event) : Option (Nat × Event) :=
+  match (match e.route with | some rc => dictGet s.prefixes (firstSeg rc) | none => none) with
+  | some (sink, consume) =>
+    some (sink, if consume then { e with route := match e.route with | some rc => stripSeg rc | none => none } else e)
+  | none =>
+    match dictGet s.ids e.testId with
+    | some sink => some (sink, e)
+    | none => s.fallback.map fun f => (f, e)
+
+/-- `add_rule(sink, policy, do_start_stop_run, …)` up to (not including) the immediate `sink.startTestRun()`:
+new state, the sink to start at once (flag set and a run in progress), what the call does if that start returns -/
+def regStep (s : State) : Op → State × Option Nat × Res
+  | .addPrefix sink pfx consume flag =>
+    if pfx.contains '/' then (s, none, .raised "TypeError")
+    else
+      let s1 := { s with prefixes := dictSet s.prefixes pfx (sink, consume) }
+      if flag then ({ s1 with sinks := s1.sinks ++ [sink] }, if s.inRun then some sink else none, .ok) else (s1, none, .ok)
+  | .addId sink tid flag =>
+    let s1 := { s with ids := dictSet s.ids tid sink }
+    if flag then ({ s1 with sinks := s1.sinks ++ [sink] }, if s.inRun then some sink else none, .ok) else (s1, none, .ok)
+  | .addBad _ _ => (s, none, .raised "ValueError")
+  | _ => (s, none, .ok)
+
+def kindOf : SinkEv → Kind
+  | .start => .start
+  | .stop => .stop
+  | .status _ => .status
+
+/-- take the next entry of the script of `(sink, kind)` (the first script given for that pair) -/
+def popScript : List Script → Nat → Kind → List Script × List Act
+  | [], _, _ => ([], [])
+  | sc :: rest, x, k =>
+    if sc.sink = x ∧ sc.kind = k then
+      match sc.entries with
+      | [] => (sc :: rest, [])
+      | e :: es => ({ sc with entries := es } :: rest, e)
+    else
+      let r := popScript rest x k
+      (sc :: r.1, r.2)
+
+/-- the actions of a script entry, in order, until one raises; a re-entrant `add_rule` starts its sink at once when a
+run is in progress (that sink behaves plainly then) and raises itself for a bad policy / prefix -/
+def runActs (s : State) : List Act → State × List Item × Option String
+  | [] => (s, [], none)
+  | .raise :: _ => (s, [.exc "Fault"], some "Fault")
+  | .add o :: as =>
+    let r := regStep s o
+    match r.2.2 with
+    | .raised x => (r.1, [.radd o, .exc x], some x)
+    | _ =>
+      let r2 := runActs r.1 as
+      (r2.1, .radd o :: ((match r.2.1 with | some y => [Item.del y .start true] | none => []) ++ r2.2.1), r2.2.2)
+
+/-- the router calls a method of sink `x` (not from inside another sink's method): the sink records the call, then
+performs the next entry of its script -/
+def callTop (s : State) (x : Nat) (ev : SinkEv) : State × List Item × Option String :=
+  let p := popScript s.scripts x (kindOf ev)
+  let r := runActs { s with scripts := p.1 } p.2
+  (r.1, .del x ev false :: r.2.1, r.2.2)
+
+/-- `for sink in self._sinks: sink.<method>()` — over the LIVE list: a sink appended while the loop runs is reached
+by it; an exception leaves the loop at once.  `fuel` bounds the number of iterations (see `fuelOf`). -/
+def loop (ev : SinkEv) : Nat → State → Nat → State × List Item × Option String
+  | 0, s, _ => (s, [], some "fuel")
+  | n + 1, s, i =>
+    match s.sinks[i]? with
+    | none => (s, [], none)
+    | some x =>
+      let r := callTop s x ev
+      match r.2.2 with
+      | some e => (r.1, r.2.1, some e)
+      | none =>
+        let r2 := loop ev n r.1 (i + 1)
+        (r2.1, r.2.1 ++ r2.2.1, r2.2.2)
+
+def actsLeft (scs : List Script) : Nat := (scs.map fun sc => (sc.entries.map List.length).sum).sum
+
+/-- enough iterations: every iteration either moves on in the list or uses up script actions that could lengthen it -/
+def fuelOf (s : State) : Nat := s.sinks.length + actsLeft s.scripts + 1
+
+def resOf : Option String → Res
+  | none => .ok
+  | some x => .raised x
 
 /-- one consuming router per code, outermost code first -/
 def popAll : List Str → Event → Option Event
   | [], e => some e
   | c :: cs, e =>
-    match route { fallback := none, prefixes := [(c, (0, true))], ids := [], sinks := [], inRun := false } e with
+    match route { fallback := none, prefixes := [(c, (0, true))], ids := [], sinks := [], inRun := false, scripts := [] } e with
     | some (_, e') => popAll cs e'
     | none => none
 
 def pushAll (codes : List Str) (rc : Option Str) : Option Str := codes.foldl (fun rc c => Deco.prefixRoute c rc) rc
 
-/-- one operation: new state, deliveries to sinks (in order), what the caller sees -/
-def step (s : State) : Op → State × List (Nat × SinkEv) × Res
-  | .start => ({ s with inRun := true }, s.sinks.map (·, .start), .ok)
-  | .stop => ({ s with inRun := false }, s.sinks.map (·, .stop), .ok)
-  | .addPrefix sink pfx consume flag =>
-    if pfx.contains '/' then (s, [], .raised "TypeError")
-    else
-      let r := registered { s with prefixes := dictSet s.prefixes pfx (sink, consume) } sink flag
-      (r.1, r.2, .ok)
-  | .addId sink tid flag =>
-    let r := registered { s with ids := dictSet s.ids tid sink } sink flag
-    (r.1, r.2, .ok)
-  | .addBad _ _ => (s, [], .raised "ValueError")
+/-- `add_rule` called by the driver: registration, then — flag set and a run in progress — the new sink's
+`startTestRun()` (a call by the router like any other: the sink's script applies) -/
+def addStep (s : State) (o : Op) : State × List Item × Res :=
+  match (regStep s o).2.2 with
+  | .raised x => (s, [], .raised x)
+  | _ =>
+    match (regStep s o).2.1 with
+    | some y =>
+      ((callTop (regStep s o).1 y .start).1, (callTop (regStep s o).1 y .start).2.1, resOf (callTop (regStep s o).1 y .start).2.2)
+    | none => ((regStep s o).1, [], .ok)
+
+/-- one operation of the driver: new state, what is observed during it, what the driver sees.
+`startTestRun`: the loop, and only when it has completed `_in_run = True`; `stopTestRun` likewise with `False`. -/
+def step (s : State) : Op → State × List Item × Res
+  | .start =>
+    let r := loop .start (fuelOf s) s 0
+    match r.2.2 with
+    | none => ({ r.1 with inRun := true }, r.2.1, .ok)
+    | some x => (r.1, r.2.1, .raised x)
+  | .stop =>
+    let r := loop .stop (fuelOf s) s 0
+    match r.2.2 with
+    | none => ({ r.1 with inRun := false }, r.2.1, .ok)
+    | some x => (r.1, r.2.1, .raised x)
   | .status e =>
     match route s e with
-    | some (sink, e') => (s, [(sink, .status e')], .ok)
+    | some (sink, e') =>
+      let c := callTop s sink (.status e')
+      (c.1, c.2.1, resOf c.2.2)
     | none => (s, [], .raised "AttributeError")
   | .roundTrip codes e =>
     if codes.any (·.contains '/') then (s, [], .raised "TypeError")
@@ -107,27 +219,29 @@ def step (s : State) : Op → State × List (Nat × SinkEv) × Res
       match popAll codes.reverse { e with route := pushAll codes e.route } with
       | some e' => (s, [], .arrived e')
       | none => (s, [], .raised "AttributeError")
+  | o => addStep s o     -- the three add_rule operations
 
-def run : State → List Op → List (Nat × SinkEv) × List Res
+def run : State → List Op → List (List Item) × List Res
   | _, [] => ([], [])
   | s, o :: os =>
     let r := step s o
     let rest := run r.1 os
-    (r.2.1 ++ rest.1, r.2.2 :: rest.2)
+    (r.2.1 :: rest.1, r.2.2 :: rest.2)
 
 structure Input where
   hasFallback : Bool
   fbFlag : Bool
   ops : List Op
+  scripts : List Script
 deriving Repr
 
 structure Trace where
-  deliveries : List (Nat × SinkEv)     -- every call received by any sink, in global order
+  segments : List (List Item)          -- per operation: what was observed during it, in order
   results : List Res                   -- per operation
 deriving DecidableEq, Repr
 
 def model (i : Input) : Trace :=
-  let r := run (init i.hasFallback i.fbFlag) i.ops
-  { deliveries := r.1, results := r.2 }
+  let r := run { init i.hasFallback i.fbFlag with scripts := i.scripts } i.ops
+  { segments := r.1, results := r.2 }
 
 end TTV.Stream.Router
